@@ -27,10 +27,14 @@ CLAIMED = {
              'them (negative control). Bound to the code in both directions: every spec crash point is produced for real '
              '(SIGKILL at the hook of that point, SIGKILL of the process group when inotify reports an in-place write, prefixes/'
              'garbage of files observed to be written in place, random-time kills) followed by a request in a fresh '
-             'interpreter; per-process hook traces of real races (2..16 processes) are validated by spec/CompileTrace.tla.',
+             'interpreter; per-process hook traces of real races (2..16 processes) are validated by spec/CompileTrace.tla. '
+             'The action ToolFails (a build tool is killed while the interpreter lives on) is produced for real by killing '
+             'cc1 / ld below the requesting process. spec/CompileCacheProof.tla (EXTENDS CompileCache) proves the safety '
+             'properties with TLAPS for ANY number of processes, digests, crashes and requests (inductive invariant IndInv, '
+             'also checked by TLC on the bounded model).',
         note='SIGKILL stands for power loss (no fsync modelling); dlopen of a truncated ELF is observed, not modelled; real '
              'schedules of the races are whatever the OS produces (validated, not enumerated); one 1-D form family.',
-        technique='TLA+ protocol model + TLC (safety, liveness, negative control) + real crash injection at every modelled crash point + TLC trace validation of hook events from real concurrent compilations',
+        technique='TLA+ protocol model + TLC (safety, liveness, negative control) + TLAPS proof of the safety invariants for any number of processes + real crash injection at every modelled crash point + TLC trace validation of hook events from real concurrent compilations',
         design_ref='3 C20'),
     'C13': dict(
         text='spec/VFormCache.tla is the in-process cache as a state machine (pre-seeded shipped assemblers, key lookup per '
@@ -77,12 +81,13 @@ CLAIMED = {
              '(integer breakpoints, all interior multiplicities) x points (breakpoints, ends, mid/quarter points) x derivative '
              'orders 0..p+2 and TLC checks non-negativity, partition of unity, derivative sums, locality, left limits and a '
              'code-shaped exact model of the active_deriv kernel (mutant as negative control); FindSpanPC.tla is a PlusCal '
-             'transcription of pyx_findspan checked against the declarative span; BSplineTP.tla covers tensor products. Every '
-             'emitted case is replayed through every evaluation route of the real code.',
+             'transcription of pyx_findspan checked against the declarative span and, as a refinement (AsProved, StepsAsProved), '
+             'against spec/FindSpanProof.tla, where the same loop is proved correct for ALL knot vectors with TLAPS; BSplineTP.tla '
+             'covers tensor products. Every emitted case is replayed through every evaluation route of the real code.',
         note='Exact reference for p <= 3 (thorough 5), integer breakpoints 0..4 (0..6); comparison |x-q| <= 1e-11*max(1,|q|,row scale); '
              'p = 6..12 and span ratios up to 2^40 only by invariants (sum to one, derivative sums, sign, route agreement). '
              'Trusted base: TLC, Rat.tla, float(Fraction).',
-        technique='TLA+ exact rational reference + PlusCal transcription of the span search, enumerated by TLC; every case replayed through all evaluation routes of the real code',
+        technique='TLA+ exact rational reference + PlusCal transcription of the span search (TLC; refinement of a TLAPS-proved unbounded version), enumerated by TLC; every case replayed through all evaluation routes of the real code',
         design_ref='3 C02'),
     'C09': dict(
         text='spec/Galerkin1D.tla computes the exact integrals of products of B-spline derivatives (Taylor pieces integrated '
@@ -119,13 +124,14 @@ CLAIMED = {
         design_ref='3 C10'),
     'C19': dict(
         text='spec/KnotVec.tla: PlusCal transcription of pyx_findspan checked against the declarative span (LoopInv, FindSpanOK, '
-             'Termination; buggy comparison as negative control) on all small open knot vectors; queries/refine/eq/derivative '
+             'Termination; buggy comparison as negative control; AsProved = the inductive invariant of the unbounded TLAPS proof '
+             'spec/FindSpanProof.tla read through a refinement mapping) on all small open knot vectors; queries/refine/eq/derivative '
              'consistency on the reference; the make_knots contract (run-length-encoded multiplicity profile, numdofs, span of '
              'breakpoint) swept for p <= 6, mult <= max(p,1), n <= 2000 over 12 rational/decimal intervals plus random float '
              'intervals; every case replayed exactly on the real KnotVector/make_knots/findspan/Spline.derivative.',
         note='Harness abstraction of the float knot array: np.unique -> profile, end points bitwise, breakpoints within 4*n*ulp; '
              'queries on the quarter-integer grid (p <= 3, 4 thorough); quick tier uses 59 values of n.',
-        technique='PlusCal/TLA+ model of span search + declarative knot-vector contract enumerated by TLC, every case replayed on the real code',
+        technique='PlusCal/TLA+ model of span search (TLC, linked to a TLAPS proof for all knot vectors) + declarative knot-vector contract enumerated by TLC, every case replayed on the real code',
         design_ref='3 C19'),
     'C12': dict(
         text='spec/TimeStep.tla transcribes the adaptive controller, the constant-step driver and Newton as state machines with an '
